@@ -21,6 +21,7 @@
  R7 first reason  : a blocking reason already set is never overwritten by a later check (shared with C19-R9).
  R8 mode copy    : the selected mode is copied onto the request completely and identically in every copy block.
  Rn arg roles     : a variable named like a parameter of the callee is handed to that parameter (no exchanged roles).
+ R9 path lookup  : each internal ROADM path is registered with the impairment profile looked up for the same (from, to) pair.
 """
 import ast
 
@@ -481,6 +482,13 @@ def rn_arg_roles(ctx):
     ctx.check('Rn.arg-roles', 'argument / parameter name scan', True, 'C13|arg-roles-scan', '', f'{n} argument(s) named like another parameter judged')
 
 
+def r_path_lookup(ctx):
+    """R9: each internal ROADM path is registered with the impairment profile looked up for the same (from, to) pair"""
+    from .common import roadm_path_lookup_rule
+    roadm_path_lookup_rule(ctx, 'R9.path-lookup', 'the OSNR / penalties of the configured add, drop or express path would not be counted in the verdict')
+    ctx.need('R9.path-lookup', 3)
+
+
 from ..memo import rule_for as _memo_rule
 
 RULES_MEMO = ('Rm.memo', _memo_rule('C13', 'a verdict would be taken on the figures of another propagation'))
@@ -491,4 +499,4 @@ from ..presence import rule_for as _presence_rule
 RULES_PRESENCE = ('Rp.presence', _presence_rule('C13', 'a legal zero would be read as missing'))
 
 RULES = [('R6.tables', r6_tables), ('R1.verdict', r1_verdicts), ('R2.update-snr', r2_update_snr), ('R3.once', r3_once),
-         ('R4.penalties', r4_penalties), ('R5.order', r5_order), RULES_MEMO, RULES_PRESENCE, ('Rs.sorted-abscissa', rs_sorted), ('R7.first-reason', r7_first_reason), ('R8.mode-copy', r_mode_copy), ('Rn.arg-roles', rn_arg_roles)]
+         ('R4.penalties', r4_penalties), ('R5.order', r5_order), RULES_MEMO, RULES_PRESENCE, ('Rs.sorted-abscissa', rs_sorted), ('R7.first-reason', r7_first_reason), ('R8.mode-copy', r_mode_copy), ('Rn.arg-roles', rn_arg_roles), ('R9.path-lookup', r_path_lookup)]
